@@ -1,8 +1,8 @@
 #!/verif/.venv/bin/python
 # Replay of a solver counterexample against the unmodified code (no shims).
-# property=C01 kernel=finite label=finite:accepted_pulse_has_finite_samples
+# property=C01 kernel=slm label=slm:masked_add_is_accepted
 import sys
 sys.path[:0] = ['/repo' + "/pulser-core", '/repo' + "/pulser-simulation", "/verif"]
 from symx.replay import replay
-sys.exit(replay(check='checks.c01', kernel='finite', shape={'cls': 'blackman', 'dur': 2, 'as': 'amp'},
-                assignment={'area': '0/1', 'max_det': '0/1', 'max_amp': '0/1'}, label='finite:accepted_pulse_has_finite_samples'))
+sys.exit(replay(check='checks.c01', kernel='slm', shape={'order': 'mask_first', 'masked': ['q0', 'q1'], 'rem': 0},
+                assignment={'amp': '1025017207358883/140737488355328', 'dur/k': 2}, label='slm:masked_add_is_accepted'))
